@@ -83,6 +83,12 @@ Theorem C14_nonce_add : forall n i, length n = 16 -> bytes_ok n ->
 Proof. intros n i Hn Hok. split; [exact (nonce_add_val n i Hn Hok)|]. rewrite nonce_add_length. exact Hn. Qed.
 Print Assumptions C14_nonce_add.
 
+(* a session never repeats a nonce before 2^128 packets: the i-th and j-th successors of one starting nonce differ *)
+Theorem C14_nonces_distinct : forall n i j, length n = 16 -> bytes_ok n -> i < j ->
+  (N.of_nat j - N.of_nat i < 2 ^ 128)%N -> nonce_add n i <> nonce_add n j.
+Proof. exact nonce_add_distinct. Qed.
+Print Assumptions C14_nonces_distinct.
+
 Example C14_nonvacuous :
   let n := repeat 255%N 16 in let m := [1; 2; 255; 255; 255]%N ++ repeat 255%N 11 in
   increment_nonce n = repeat 0%N 16 /\ increment_nonce m = [1; 3; 0; 0; 0]%N ++ repeat 0%N 11 /\
